@@ -10,6 +10,7 @@ import flowpaths.utils as fu
 from flowpaths.utils import solverwrapper as swm
 
 OBS = collections.Counter()      # per-process activation counters; drivers snapshot/reset per case
+CTOR_LOG = []                    # (class name, k) for every model constructed while the route monitor is installed
 
 DAG_CLASSES = ["kFlowDecomp", "MinFlowDecomp", "kLeastAbsErrors", "kMinPathError", "kPathCover", "MinPathCover"]
 CYC_CLASSES = ["kFlowDecompCycles", "MinFlowDecompCycles", "kLeastAbsErrorsCycles", "kMinPathErrorCycles", "kPathCoverCycles", "MinPathCoverCycles"]
@@ -235,6 +236,7 @@ class RouteMonitor:
                 snap["allow_empty"] = bool(oo.get("allow_empty_paths", False) or oo.get("allow_empty_walks", False)
                                            or args.get("solution_weights_superset") is not None or oo.get("given_weights") is not None)
                 self_._fpv_snap = snap
+                CTOR_LOG.append((name, args.get("k")))
             except Exception:
                 self_._fpv_snap = None
             return o_init(self_, *a, **k)
